@@ -19,6 +19,7 @@ def analyse(ctx: CheckContext, p: Program):
     ctx.guard(inval.check_indices, ctx, eng, funcs)
     ctx.guard(inval.check_stale_derived, ctx, eng, funcs)
     ctx.guard(inval.check_source_column_readonly, ctx, eng)
+    ctx.guard(inval.check_count_guard, ctx, eng, funcs)
     ctx.guard(inval.check_mirrored_branches, ctx, eng)
     ctx.guard(inval.check_between_pinches, ctx, p, r)
     ctx.guard(colcache.check_column_not_cache, ctx, p, r, funcs)
@@ -39,6 +40,9 @@ def run(ctx: CheckContext):
     run_control(ctx, "C07/sub-zero-closing-temperatures-filtered", analyse, p.root, "OpenPinch/classes/problem_table.py",
                 "        T_vals = np.atleast_1d(np.asarray(T_ls, dtype=float))\n",
                 "        T_vals = np.atleast_1d(np.asarray(T_ls, dtype=float))\n        T_vals = T_vals[np.isfinite(T_vals) & (T_vals > 0.0)]\n", "ZERO-CMP")
+    run_control(ctx, "C07/flatten-only-when-a-row-was-inserted", analyse, p.root, "OpenPinch/analysis/gcc_manipulation.py",
+                "            j_rng = range(i_0 + 1, i + 1) if is_above_pinch else range(i + 1, i_0)\n            for j in j_rng:\n                H_NP_vals[j] = H_vals[i_0]\n",
+                "            if n_int_added > 0:\n                for j in (range(i_0 + 1, i + 1) if is_above_pinch else range(i + 1, i_0)):\n                    H_NP_vals[j] = H_vals[i_0]\n", "COUNT-GUARD")
     run_control(ctx, "C07/last-row-between-pinches-kept", analyse, p.root, "OpenPinch/analysis/gcc_manipulation.py",
                 "for j in range(hot_pinch_loc + 1, cold_pinch_loc):", "for j in range(hot_pinch_loc + 1, cold_pinch_loc - 1):", "BETWEEN")
     run_control(ctx, "C07/pocket-free-column-as-cache", analyse, p.root, g, "    get_GCC_without_pockets(pt)\n",
